@@ -737,6 +737,8 @@ def configure(repo: Repo, rep):
                     dv = def_value(d, nm)
                     if dv is None and d.kind == "cond" and isinstance(d.ast, ast.NamedExpr):
                         dv = d.ast.value
+                    if dv is None and d.kind == "for" and isinstance(d.ast, ast.For):
+                        dv = d.ast.iter  # `for directory in (start, *start.parents):` - the variable comes from what is iterated
                     if dv is None:
                         for x in ast.walk(d.ast) if d.ast is not None else []:
                             if isinstance(x, ast.NamedExpr) and isinstance(x.target, ast.Name) and x.target.id == nm:
@@ -805,8 +807,13 @@ def configure(repo: Repo, rep):
     cli_none = []
     for c in cfg.conds():
         e = c.ast
-        if isinstance(e, ast.Compare) and len(e.ops) == 1 and isinstance(e.ops[0], (ast.Is, ast.IsNot)) and isinstance(e.comparators[0], ast.Constant) and e.comparators[0].value is None and "inline_snapshot" in norm(e.left):
-            cli_none.append((c, "T" if isinstance(e.ops[0], ast.Is) else "F"))
+        if isinstance(e, ast.Compare) and len(e.ops) == 1 and isinstance(e.ops[0], (ast.Is, ast.IsNot)) and isinstance(e.comparators[0], ast.Constant) and e.comparators[0].value is None:
+            left = e.left
+            if isinstance(left, ast.Name):
+                # the option held in a local: `option_value = config.option.inline_snapshot` ... `if option_value is not None:`
+                left = resolve_alias(cfg, c, left) or left
+            if "inline_snapshot" in norm(left):
+                cli_none.append((c, "T" if isinstance(e.ops[0], ast.Is) else "F"))
     for d in fdefs:
         v = def_value(d, flagvar)
         if v is None:
@@ -851,6 +858,24 @@ def configure(repo: Repo, rep):
 # ------------------------------------------------------------------ xfail etc.
 
 
+def _xfail_flag(cfg, cg, f, c):
+    """the edge label of a name condition on which is_xfail() answered True, when every definition of the name is `is_xfail(..)` ('T') or
+    `not is_xfail(..)` ('F'); None otherwise"""
+    labs = set()
+    for d in reaching_defs(cfg, c, c.ast.id):
+        v = def_value(d, c.ast.id)
+        lab = "T"
+        if isinstance(v, ast.UnaryOp) and isinstance(v.op, ast.Not):
+            v, lab = v.operand, "F"
+        if not isinstance(v, ast.Call):
+            return None
+        tg, _ = cg.call_targets(f, v)
+        if not any(t.key == "pytest_plugin.py::is_xfail" for t in tg):
+            return None
+        labs.add(lab)
+    return labs.pop() if len(labs) == 1 else None
+
+
 def xfail(repo: Repo, rep):
     rep.rule(
         "R-XFAIL",
@@ -860,11 +885,16 @@ def xfail(repo: Repo, rep):
     cfg = cfg_of(f)
     cg = callgraph(repo)
     xf = []
+    xf_label = {}
     for c in cfg.conds():
         if isinstance(c.ast, ast.Call):
             tg, _ = cg.call_targets(f, c.ast)
             if any(t.key == "pytest_plugin.py::is_xfail" for t in tg):
                 xf.append(c)
+        elif isinstance(c.ast, ast.Name) and _xfail_flag(cfg, cg, f, c) is not None:
+            # the answer of is_xfail() (or its negation) held in a local: `check_values = not is_xfail(request)` ... `if check_values:`
+            xf.append(c)
+            xf_label[id(c)] = _xfail_flag(cfg, cg, f, c)
         elif isinstance(c.ast, ast.Name):
             # the decision computed inline: a flag whose value derives from, or is set under a test of, the "xfail" marker
             hit = derives_from(cfg, c, c.ast, lambda x: isinstance(x, ast.Constant) and x.value == "xfail")
@@ -878,9 +908,11 @@ def xfail(repo: Repo, rep):
                 xf.append(c)
     rep.floor("R-XFAIL", "is_xfail tests", len(xf), 1)
     for c in xf:
-        starts = [b for b, l in c.succ if l == "T"]
+        XT = xf_label.get(id(c), "T")
+        XF = "F" if XT == "T" else "T"
+        starts = [b for b, l in c.succ if l == XT]
         region = reach(cfg, starts, skip_labels=("exc",))
-        other = reach(cfg, [b for b, l in c.succ if l == "F"], skip_labels=("exc",))
+        other = reach(cfg, [b for b, l in c.succ if l == XF], skip_labels=("exc",))
         ys = [n for n in region if n.is_yield and n not in other]
         # completeness: the marker alone decides - no yield that is also reached by unmarked tests (the shared, active state) may be
         # reachable once is_xfail() answered True (e.g. `is_xfail(request) and not <option>`)
@@ -911,7 +943,7 @@ def xfail(repo: Repo, rep):
                 and isinstance(n.ast.value, ast.Constant)
                 and n.ast.value.value is False
             ]
-            if offs and nodes_dominate(cfg, offs, y) and edges_dominate(cfg, [(c, "T")], y):
+            if offs and nodes_dominate(cfg, offs, y) and edges_dominate(cfg, [(c, XT)], y):
                 rep.ok("R-XFAIL", f, y.ast, f"xfail test runs under `{w[1]}.active = False` in a private state")
             else:
                 rep.violation("R-XFAIL", f, y.ast, f"the private state of an xfail test is not deactivated before the test runs (`{w[1]}.active = False` does not dominate the yield)", construct="active")
